@@ -168,7 +168,7 @@ CHECKS = {
     ),
     "C19": dict(
         subjects=[(n, 5000, 100000) for n in ["misc.iter_IterableList_HP", "misc.iter_IterableList_DHP", "misc.iter_MichaelSet_Iterable_HP", "misc.iter_MichaelSet_Iterable_DHP", "misc.iter_SplitListSet_Iterable_HP",
-                  "misc.iter_SplitListSet_Iterable_DHP", "misc.iter_FeldmanHashSet_HP", "misc.iter_FeldmanHashSet_DHP"]],
+                  "misc.iter_SplitListSet_Iterable_DHP", "misc.iter_FeldmanHashSet_HP", "misc.iter_FeldmanHashSet_DHP", "misc.iter_FeldmanHashSet_RCU_gpb", "misc.iter_FeldmanHashSet_RCU_shb"]],
         classes=["iterator-exposed-disposed", "iterator-exposed-disposed-guard-copy", "iteration-order", "stable-key-missed", "stable-key-twice", "removed-twice", "conservation", "erase_at-false"],
         expect_probes=["F10_eager_reclaim"],
         title="Thread-safe iterators stay valid and complete under concurrent updates",
